@@ -146,6 +146,11 @@ func concretize(h *history, a *auA) concrete {
 		frame := append(vp9FrameHeader(a.Params, a.RA), fill(u.ID, u.Len)...)
 		if !a.RA {
 			frame = append(vp9FrameHeader(u.ID%12, false), fill(u.ID, u.Len)...)
+			if u.ID%7 == 3 {
+				// show_existing_frame = 1 (profile 0, one-byte header 10 00 1 iii): the header parser stops there and
+				// leaves every other field at its zero value; not a random-access unit
+				frame = append([]byte{0x88 | byte(u.ID%8)}, fill(u.ID, u.Len)...)
+			}
 		}
 		c.au = [][]byte{frame}
 		c.fsize, c.tsize = int64(len(frame)), int64(len(frame))
@@ -584,6 +589,7 @@ func decodeTS(body []byte, ntracks int, kinds []int) ([]dunit, bool, error) {
 type rotation struct {
 	k          int // write index
 	playlists  []*parsedMedia
+	deltas     []*parsedMedia // Low-Latency: the same playlists requested with _HLS_skip=YES, same instant
 	plRaw      []string
 	index      *parsedMulti
 	indexRaw   string
@@ -866,6 +872,9 @@ func runImpl(h *history, dir string) (res *runResult) {
 				// the request would block: not issued
 				line = append(line, 0)
 				rot.playlists = append(rot.playlists, nil)
+				if h.Variant == 3 {
+					rot.deltas = append(rot.deltas, nil)
+				}
 				rot.plRaw = append(rot.plRaw, "")
 				res.lines = append(res.lines, line)
 				continue
@@ -876,6 +885,17 @@ func runImpl(h *history, dir string) (res *runResult) {
 			}
 			rot.playlists = append(rot.playlists, pm)
 			rot.plRaw = append(rot.plRaw, string(r.body))
+			if h.Variant == 3 {
+				sep := "?"
+				if q != "" {
+					sep = "&"
+				}
+				var pd *parsedMedia
+				if rd := fetch(m, s.ID+"_stream.m3u8"+q+sep+"_HLS_skip=YES"); rd.status == 200 {
+					pd = parseMedia(string(rd.body))
+				}
+				rot.deltas = append(rot.deltas, pd)
+			}
 			if pm == nil || pm.err != "" {
 				line = append(line, -1, int64(r.status))
 				res.lines = append(res.lines, line)
